@@ -53,7 +53,9 @@ theorem getChunkData_history_free (H : HashFn) (D : Decomp) (f : Bytes) (c : Ctx
         by_cases hl : ch.len = 0
         · simp [hl]
         · have hnd' : ¬ (d.len > 0 ∧ (forget c).dict.isNone = true) := hnd
-          simp only [hl, hnd, hnd', ↓reduceIte, Bool.false_eq_true, false_or, Option.isNone_some,
+          have hnd2 : ¬ (d.len > 0 ∧ c.dict.isNone = true ∧ d.len ≥ allocLimit) := fun h => hnd ⟨h.1, h.2.1⟩
+          have hnd2' : ¬ (d.len > 0 ∧ (forget c).dict.isNone = true ∧ d.len ≥ allocLimit) := hnd2
+          simp only [hl, hnd, hnd', hnd2, hnd2', ↓reduceIte, Bool.false_eq_true, false_or, Option.isNone_some,
             Option.map_some, Option.some.injEq, or_self]
           rfl
 
